@@ -1,5 +1,34 @@
 import SLModel.Drv.Util
+import SLModel.Drv.C01
+import SLModel.Drv.C02
+import SLModel.Drv.C03
+import SLModel.Drv.C04
+import SLModel.Drv.C05
+import SLModel.Drv.C06
+import SLModel.Drv.C07
+import SLModel.Drv.C08
+import SLModel.Drv.C09
+import SLModel.Drv.C10
+import SLModel.Drv.C11
+import SLModel.Drv.C12
+import SLModel.Drv.C13
+import SLModel.Drv.C14
+import SLModel.Drv.C15
+import SLModel.Drv.C16
+import SLModel.Drv.C17
+import SLModel.Drv.C18
+import SLModel.Drv.C19
+import SLModel.Drv.C20
+import SLModel.Drv.C21
+import SLModel.Drv.C22
+import SLModel.Drv.C23
+import SLModel.Drv.C24
+import SLModel.Drv.C25
 import SLModel.Drv.C26
+import SLModel.Drv.C27
+import SLModel.Drv.C28
+import SLModel.Drv.C29
+import SLModel.Drv.C30
 /-!
 `slmodel`: JSON-lines server around the model's executable definitions.
 One request per line `{"p":"C26","op":…,…}`; one response line `{"ok":true,…}` or
@@ -10,7 +39,36 @@ open Lean
 
 def dispatch (p : String) (req : Json) : Except String Json :=
   match p with
+  | "C01" => SL.Drv.C01.handle req
+  | "C02" => SL.Drv.C02.handle req
+  | "C03" => SL.Drv.C03.handle req
+  | "C04" => SL.Drv.C04.handle req
+  | "C05" => SL.Drv.C05.handle req
+  | "C06" => SL.Drv.C06.handle req
+  | "C07" => SL.Drv.C07.handle req
+  | "C08" => SL.Drv.C08.handle req
+  | "C09" => SL.Drv.C09.handle req
+  | "C10" => SL.Drv.C10.handle req
+  | "C11" => SL.Drv.C11.handle req
+  | "C12" => SL.Drv.C12.handle req
+  | "C13" => SL.Drv.C13.handle req
+  | "C14" => SL.Drv.C14.handle req
+  | "C15" => SL.Drv.C15.handle req
+  | "C16" => SL.Drv.C16.handle req
+  | "C17" => SL.Drv.C17.handle req
+  | "C18" => SL.Drv.C18.handle req
+  | "C19" => SL.Drv.C19.handle req
+  | "C20" => SL.Drv.C20.handle req
+  | "C21" => SL.Drv.C21.handle req
+  | "C22" => SL.Drv.C22.handle req
+  | "C23" => SL.Drv.C23.handle req
+  | "C24" => SL.Drv.C24.handle req
+  | "C25" => SL.Drv.C25.handle req
   | "C26" => SL.Drv.C26.handle req
+  | "C27" => SL.Drv.C27.handle req
+  | "C28" => SL.Drv.C28.handle req
+  | "C29" => SL.Drv.C29.handle req
+  | "C30" => SL.Drv.C30.handle req
   | _ => .error s!"unknown property {p}"
 
 def handleLine (line : String) : String :=
